@@ -32,10 +32,11 @@ import ChibiVerif.Lemmas.FpToy
 import ChibiVerif.Lemmas.FpRoundLemmas
 import ChibiVerif.Lemmas.FpLiteralLemmas
 import ChibiVerif.Lemmas.FpIeeeLemmas
+import ChibiVerif.Lemmas.FpChainLemmas
 
 namespace ChibiVerif.Props.C02
 open ChibiVerif.Fp ChibiVerif.Asm ChibiVerif.X86 ChibiVerif.Spec.Fpu ChibiVerif.FpCodegen ChibiVerif.Spec.FpC11
-open ChibiVerif.Spec.IntSpec ChibiVerif.Gen.CommonType ChibiVerif.Gen.CastTable
+open ChibiVerif.Spec.IntSpec ChibiVerif.Gen.CommonType ChibiVerif.Gen.CastTable ChibiVerif.FpChain
 
 /-! ## usual arithmetic conversions -/
 
@@ -253,6 +254,135 @@ example : ∃ (F : FpuSpec) (s : FState) (b : BitVec 80),
     Holds .f80 s (.f80 b) ∧ convert F s.cw (.int .u64) (.f80 b) = some (.int 9223372036854775808) ∧
     (usesX87Arith .f80 (.int .u64) = true → pc s.cw = 3#2) :=
   ⟨Toy.toy, ⟨{ regs := fun _ => 0, mem := fun _ => 0 }, 0, 0, [Toy.T80], 0x37f#16⟩, _, ⟨[], rfl⟩, by decide, by decide⟩
+
+/-! ## chains of conversions: what `gen_expr` does with nested `ND_CAST` nodes -/
+
+/-- **C02 (one conversion, all 144 pairs).**  `C02_select` covers the 63 pairs with a floating side; the 81 integer-only pairs
+    are C01's `C01_cast` (same generated table, same `_Bool` sequence, same representation invariant), transported to the
+    floating machine: the integer sequences run on the integer part of the state and touch neither %xmm0, the x87 stack, the
+    control word nor %rsp.  So `cast(from, to)` implements the C11 conversion for **every** pair of arithmetic types. -/
+theorem C02_cast_link (F : FpuSpec) (frm to : ATy) (s : FState) (x y : AVal)
+    (hh : Holds frm s x) (hc : convert F s.cw to x = some y) (hpc : usesX87Arith frm to = true → pc s.cw = 3#2) :
+    ∃ s', Fp.run F (castSeq frm to) s = some s' ∧ Holds to s' y ∧ s'.cw = s.cw ∧ stBelow to s' = stBelow frm s ∧
+      s'.x.get .rsp = s.x.get .rsp :=
+  link F frm to s x y hh hc hpc
+
+/-- non-vacuity: (unsigned char) of the int −1 in %eax with garbage above: an integer-only link -/
+example : ∃ (F : FpuSpec) (s : FState) (y : AVal),
+    Holds (.int .i32) s (.int (-1)) ∧ convert F s.cw (.int .u8) (.int (-1)) = some y ∧ y = .int 255 ∧
+    (usesX87Arith (.int .i32) (.int .u8) = true → pc s.cw = 3#2) :=
+  ⟨Toy.toy, ⟨{ regs := fun _ => 0xdeadbeefffffffff#64, mem := fun _ => 0 }, 0, 0, [], 0x37f#16⟩, _,
+    by simp [Holds, RInt, ITy.inRange, ITy.min, ITy.max, ITy.signed, ITy.bits, State.get], rfl, by decide, by decide⟩
+
+/-- **C02 (chains of conversions).**  `gen_expr` on `(Tn)…(T2)(T1)e` — `nest t0 code [T1, …, Tn]`, where `e : t0` is any operand
+    whose code `code` leaves its value `x` where values of type `t0` live (`hleaf`, `hh`) — prints the code of `e` followed by
+    one `cast()` per `ND_CAST` node, innermost first (Model/FpChain.lean, `CastE.gen`; tied to `chibicc -S` by text on
+    generated chains).  For **every** chain over the twelve arithmetic types, of any length, every machine state and every
+    operand value: if C11 defines the composition of the conversions in order (`convertChain`: each conversion is applied to
+    the *result* of the one before, Spec/FpChainSpec.lean), that code leaves exactly this value where values of the final type
+    live, with the x87 control word, the x87 stack below the operand and %rsp as the operand's code left them.
+    Explicit casts and the conversions parse.c inserts (initialisation, assignment, `return`, arguments, operands of `?:` and
+    of binary operators) are the same `ND_CAST` node, so `int a = (float)i;`, `return (float)x;`, `f((float)i)` are chains too.
+    `hpc`, stated once for the chain: a link unsigned long ↔ long double (x87 arithmetic) needs the ABI's x87 precision.
+    Proof: induction over the chain; each link is `C02_cast_link` (= `C02_select` / C01's `C01_cast`). -/
+theorem C02_cast_chain (F : FpuSpec) (t0 : ATy) (code : List Line) (ts : List ATy) (s0 s : FState) (x y : AVal)
+    (hleaf : Fp.run F (instrsOf code) s0 = some s) (hh : Holds t0 s x)
+    (hc : convertChain F s.cw ts x = some y)
+    (hpc : chainUsesX87Arith t0 ts = true → pc s.cw = 3#2) :
+    ∃ s', Fp.run F (instrsOf (nest t0 code ts).gen) s0 = some s' ∧
+      (nest t0 code ts).ty = descr (chainType t0 ts) ∧ Holds (chainType t0 ts) s' y ∧
+      s'.cw = s.cw ∧ stBelow (chainType t0 ts) s' = stBelow t0 s ∧ s'.x.get .rsp = s.x.get .rsp := by
+  obtain ⟨s', hrun, hy, hcw, hst, hrsp⟩ := chain F ts t0 s x y hh hc hpc
+  refine ⟨s', ?_, nest_ty t0 code ts, hy, hcw, hst, hrsp⟩
+  rw [nest_gen, run_append F _ _ s0 s hleaf, hrun]
+
+/-- non-vacuity: `(long)(double)(float)(unsigned)x` with x = 4026531841 (0xF0000001, above 2^31 and not a float) already in
+    %eax (empty operand code): on the toy FPU the chain is defined and yields 4026531840 -/
+example : ∃ (F : FpuSpec) (s : FState) (y : AVal),
+    Fp.run F (instrsOf []) s = some s ∧ Holds (.int .u32) s (.int 4026531841) ∧
+    convertChain F s.cw [.f32, .f64, .int .i64] (.int 4026531841) = some y ∧ y = .int 4026531840 ∧
+    (chainUsesX87Arith (.int .u32) [.f32, .f64, .int .i64] = true → pc s.cw = 3#2) :=
+  ⟨Toy.toy, ⟨{ regs := fun _ => 0xdeadbeeff0000001#64, mem := fun _ => 0 }, 0, 0, [], 0x37f#16⟩, _, rfl,
+    by simp [Holds, RInt, ITy.inRange, ITy.min, ITy.max, ITy.signed, ITy.bits, State.get], rfl, by decide, by decide⟩
+
+/-- **C02 (through float and back).**  For every integer type `T` other than `_Bool`, every FPU meeting the contract and every
+    value `v` of type `T`: the code of `(T)(float)e` leaves `v` rounded to 24 significant bits (nearest, ties to even), and the
+    code of `(T)(double)e` leaves `v` rounded to 53 significant bits — whenever that is a value of `T` (otherwise C11 leaves
+    the conversion back undefined).  Neither is the identity: see `C02_roundtrip_not_identity`. -/
+theorem C02_roundtrip_rounds (F : FpuSpec) (t : ITy) (ht : t ≠ .bool) (code : List Line) (s0 s : FState) (v : Int)
+    (hleaf : Fp.run F (instrsOf code) s0 = some s) (hh : Holds (.int t) s (.int v)) :
+    (t.inRange (roundInt 24 v) →
+      ∃ s', Fp.run F (instrsOf (nest (.int t) code [.f32, .int t]).gen) s0 = some s' ∧
+        Holds (.int t) s' (.int (roundInt 24 v)) ∧ s'.cw = s.cw ∧ s'.st = s.st ∧ s'.x.get .rsp = s.x.get .rsp) ∧
+    (t.inRange (roundInt 53 v) →
+      ∃ s', Fp.run F (instrsOf (nest (.int t) code [.f64, .int t]).gen) s0 = some s' ∧
+        Holds (.int t) s' (.int (roundInt 53 v)) ∧ s'.cw = s.cw ∧ s'.st = s.st ∧ s'.x.get .rsp = s.x.get .rsp) := by
+  have hr : t.inRange v := hh.1
+  have hv : v.natAbs ≤ 2 ^ 64 := by
+    cases t <;> simp [ITy.inRange, ITy.min, ITy.max, ITy.signed, ITy.bits] at hr <;> omega
+  constructor
+  · intro hin
+    have hx : chainUsesX87Arith (.int t) [.f32, .int t] = false := by cases t <;> rfl
+    obtain ⟨s', h1, _, h3, h4, h5, h6⟩ := C02_cast_chain F (.int t) code [.f32, .int t] s0 s _ _ hleaf hh
+      (via_f32 F s.cw t ht v hv hin) (by simp [hx])
+    exact ⟨s', h1, h3, h4, by simpa [stBelow, chainType] using h5, h6⟩
+  · intro hin
+    have hx : chainUsesX87Arith (.int t) [.f64, .int t] = false := by cases t <;> rfl
+    obtain ⟨s', h1, _, h3, h4, h5, h6⟩ := C02_cast_chain F (.int t) code [.f64, .int t] s0 s _ _ hleaf hh
+      (via_f64 F s.cw t ht v hv hin) (by simp [hx])
+    exact ⟨s', h1, h3, h4, by simpa [stBelow, chainType] using h5, h6⟩
+
+/-- non-vacuity: INT_MIN = −2^31 is a float, 2^24 + 3 rounds to 2^24 + 4 (both values of `int`) -/
+example : (ITy.i32 ≠ .bool) ∧ ITy.i32.inRange (roundInt 24 (-2147483648)) ∧ roundInt 24 16777219 = 16777220 ∧
+    ITy.i32.inRange (roundInt 53 16777219) := by decide
+
+/-- **C02 (a conversion to a floating type of the same size and back is NOT the identity).**  Kernel-checked witnesses, for every
+    FPU meeting the contract and every operand code: `(int)(float)e` with `e` = 16777217 = 2^24 + 1 must leave 16777216, and
+    `(long)(double)e` with `e` = 9007199254740993 = 2^53 + 1 must leave 9007199254740992; the state the operand's code alone
+    leaves (what a compiler prints that drops both conversions as a "round trip") does **not** represent that value.
+    (`hc1`/`hc2` say the same on the specification side: the C11 value of the chain differs from the operand.) -/
+theorem C02_roundtrip_not_identity (F : FpuSpec) (code : List Line) (s0 s : FState)
+    (hleaf : Fp.run F (instrsOf code) s0 = some s) :
+    (Holds (.int .i32) s (.int 16777217) →
+      (∃ s', Fp.run F (instrsOf (nest (.int .i32) code [.f32, .int .i32]).gen) s0 = some s' ∧
+        Holds (.int .i32) s' (.int 16777216)) ∧
+      ¬ Holds (.int .i32) s (.int 16777216) ∧
+      convertChain F s.cw [.f32, .int .i32] (.int 16777217) = some (.int 16777216)) ∧
+    (Holds (.int .i64) s (.int 9007199254740993) →
+      (∃ s', Fp.run F (instrsOf (nest (.int .i64) code [.f64, .int .i64]).gen) s0 = some s' ∧
+        Holds (.int .i64) s' (.int 9007199254740992)) ∧
+      ¬ Holds (.int .i64) s (.int 9007199254740992) ∧
+      convertChain F s.cw [.f64, .int .i64] (.int 9007199254740993) = some (.int 9007199254740992)) := by
+  have r24 : roundInt 24 16777217 = 16777216 := by decide
+  have r53 : roundInt 53 9007199254740993 = 9007199254740992 := by decide
+  constructor
+  · intro hh
+    obtain ⟨s', h1, h2, _⟩ := (C02_roundtrip_rounds F .i32 (by decide) code s0 s 16777217 hleaf hh).1 (by rw [r24]; decide)
+    refine ⟨⟨s', h1, r24 ▸ h2⟩, ?_, ?_⟩
+    · intro h
+      have a := hh.2; have b := h.2
+      simp only at a b
+      omega
+    · have := via_f32 F s.cw .i32 (by decide) 16777217 (by decide) (by rw [r24]; decide)
+      rw [r24] at this; exact this
+  · intro hh
+    obtain ⟨s', h1, h2, _⟩ := (C02_roundtrip_rounds F .i64 (by decide) code s0 s 9007199254740993 hleaf hh).2 (by rw [r53]; decide)
+    refine ⟨⟨s', h1, r53 ▸ h2⟩, ?_, ?_⟩
+    · intro h
+      have a := hh.2; have b := h.2
+      simp only at a b
+      omega
+    · have := via_f64 F s.cw .i64 (by decide) 9007199254740993 (by decide) (by rw [r53]; decide)
+      rw [r53] at this; exact this
+
+/-- non-vacuity: a state whose %eax holds 2^24 + 1 (garbage above), reached by the empty operand code; one whose %rax holds 2^53 + 1 -/
+example : ∃ (F : FpuSpec) (s : FState), Fp.run F (instrsOf []) s = some s ∧ Holds (.int .i32) s (.int 16777217) :=
+  ⟨Toy.toy, ⟨{ regs := fun _ => 0xdeadbeef01000001#64, mem := fun _ => 0 }, 0, 0, [], 0x37f#16⟩, rfl,
+    by simp [Holds, RInt, ITy.inRange, ITy.min, ITy.max, ITy.signed, ITy.bits, State.get]⟩
+
+example : ∃ (F : FpuSpec) (s : FState), Fp.run F (instrsOf []) s = some s ∧ Holds (.int .i64) s (.int 9007199254740993) :=
+  ⟨Toy.toy, ⟨{ regs := fun _ => 0x0020000000000001#64, mem := fun _ => 0 }, 0, 0, [], 0x37f#16⟩, rfl,
+    by simp [Holds, RInt, ITy.inRange, ITy.min, ITy.max, ITy.signed, ITy.bits, State.get]⟩
 
 /-! ## unsigned long at ≥ 2^63, spelled out -/
 
